@@ -1,15 +1,18 @@
 """C03 — phase equilibrium never creates, destroys or makes negative any material.
 Correspondence harness (stubbed solvers, real solvers replayed), generators, direct oracle."""
-import sys, types, random
+import sys, types, random, os
+# numba's on-disk cache next to /repo's sources is shared by concurrently running checks (ReferenceError 'underlying object has
+# vanished' when an index is rewritten underneath): use a cache directory of this check's own (performance only)
+os.environ.setdefault('NUMBA_CACHE_DIR', os.path.join(os.path.dirname(os.path.dirname(os.path.abspath(__file__))), '.cache', 'numba_C03'))
 import numpy as np
 from fractions import Fraction as F
 from vf import q, qlist, clist, cbool, cnat, copt, frac, fr_json
 
 ID = 'C03'
 COQ_DIR = 'C03'
-COQ_HEADER = 'From V Require Import Common.Num C03.Model C03.ModelVlle.\nOpen Scope Q_scope.'
+COQ_HEADER = 'From V Require Import Common.Num C03.Model C03.ModelVlle C03.ModelHist.\nOpen Scope Q_scope.'
 CASE_TIMEOUT = 60
-MODEL_FILES = ('Model.v', 'ModelVlle.v')
+MODEL_FILES = ('Model.v', 'ModelVlle.v', 'ModelHist.v')
 RULE = ('streams over a 7-chemical package (3 volatile, 2 gas-locked, 2 liquid/solid-locked with N_solutes 0 and 2) with 2-3 phases, '
         'random presence pattern and dyadic flows in l, g (and s), every specification pair of VLE.__call__ (T,P T,V T,H T,S T,x T,y P,V P,H P,S P,x P,y); '
         'stub stream: VLE._solve_v_fixed_point, flx.IQ_interpolation, BubblePoint.solve_Py/Ty, DewPoint.solve_Px/Tx, mixture.xH/xS/H/S/xsolve_T_at_HP/SP replaced '
@@ -220,6 +223,31 @@ def gen_sle_case(rng):
     return {'kind': 'sle', 'sub': sub, 'l': l, 's': s, 'j': j, 'T': rng.choice([300., 320., 310.15, 312.]),
             'x': rng.choice([-0.25, 0., 0.125, 0.25, 0.5, 0.75, 0.9, 1., 1.5, 0.01])}
 
+def gen_sleh_case(rng):
+    """a history of SLE calls on ONE persistent SLE object with the flows changed from outside between the calls"""
+    ids = env()['IDS2']; n = len(ids); j = 5
+    l = [0.] * n; s = [0.] * n
+    for i in (0, 1, 2):
+        if rng.random() < 0.7: l[i] = rng.choice(FLOWS)
+    if rng.random() < 0.2: l[4] = rng.choice(FLOWS)
+    l[j] = rng.choice([0.] + FLOWS); s[j] = rng.choice([0.] + FLOWS)
+    ops = []
+    for _ in range(rng.randint(3, 7)):
+        r = rng.random()
+        if r < 0.45: ops.append(['T', rng.choice([300., 320., 310.15, 295.]), rng.choice([-0.25, 0., 0.125, 0.25, 0.5, 0.75, 0.9, 1.5, 0.01])])
+        elif r < 0.55: ops.append(['given', rng.choice([300., 320.]), rng.choice([0., 0.125, 0.5, 0.9, 1.5])])
+        elif r < 0.75: ops.append(['set', rng.choice('ls'), j, rng.choice([0.] + FLOWS)])
+        elif r < 0.87: ops.append(['set', 'l', rng.choice([0, 1, 2]), rng.choice([0., 0.] + FLOWS)])
+        else: ops.append(['scale', rng.choice([0.5, 2., 0.25, 4.])])
+    # (a solubility= call on an object that was never set up reads _solid_mol before it exists: AttributeError, see report;
+    #  the histories start with a plain call)
+    seen_T = False
+    for op in ops:
+        if op[0] == 'T': seen_T = True
+        elif op[0] == 'given' and not seen_T:
+            op[0] = 'T'; op[2] = 0.25; seen_T = True
+    return {'kind': 'sleh', 'l': l, 's': s, 'j': j, 'ops': ops}
+
 def gen_vlle_case(rng):
     n = len(IDS)
     rows = {}
@@ -234,13 +262,16 @@ def gen_vlle_case(rng):
 def gen_cases(rng, tier):
     if tier == 'quick':
         n_stub, n_real, n_lle, n_sle, n_vlle = 230, 28, 40, 40, 30
+        n_sleh = 40
     else:
         n_stub, n_real, n_lle, n_sle, n_vlle = 3000, 300, 400, 400, 300
+        n_sleh = 400
     cases = [gen_vle_case(rng) for _ in range(n_stub)]
     cases += [gen_real_case(rng) for _ in range(n_real)]
     cases += [gen_lle_case(rng) for _ in range(n_lle)]
     cases += [gen_sle_case(rng) for _ in range(n_sle)]
     cases += [gen_vlle_case(rng) for _ in range(n_vlle)]
+    cases += [gen_sleh_case(rng) for _ in range(n_sleh)]
     return cases
 
 # ------------------------------------------------------------------ implementation side: VLE
@@ -571,7 +602,39 @@ def run_vlle(case):
     return {'final': {'L': rows['L'], 'g': rows['g'], 'l': rows['l'], 'T': float(s.T), 'P': float(s.P)},
             'vsegs': vsegs, 'lsegs': lsegs, 'raised': raised}
 
+def run_sleh(case, stub=True):
+    e = env(); tmo = e['tmo']
+    from thermosteam.equilibrium.sle import SLE
+    s = tmo.MultiStream(None, T=298.15, P=101325., phases='ls', thermo=e['thermo2'])
+    s.imol['l'] = np.array(case['l'], float); s.imol['s'] = np.array(case['s'], float)
+    j = case['j']; solute = e['IDS2'][j]
+    sle = s.sle            # one object for the whole history
+    cur = {}
+    p = Patches()
+    if stub: p.set(SLE, '_solve_x', lambda self, T: cur['x'])
+    steps = []
+    try:
+        for op in case['ops']:
+            raised = False
+            try:
+                if op[0] == 'T':
+                    cur['x'] = op[2]; s.sle(solute, T=op[1])
+                elif op[0] == 'given':
+                    s.sle(solute, T=op[1], solubility=op[2])
+                elif op[0] == 'set':
+                    s.imol[op[1]][op[2]] = op[3]
+                else:
+                    s.imol['l'] = np.array(fl(s.imol['l'].to_array())) * op[1]
+                    s.imol['s'] = np.array(fl(s.imol['s'].to_array())) * op[1]
+            except (RuntimeError, ValueError, FloatingPointError, ZeroDivisionError):
+                raised = True
+            steps.append({'l': fl(s.imol['l'].to_array()), 's': fl(s.imol['s'].to_array()), 'T': float(s.T), 'raised': raised})
+    finally:
+        p.undo()
+    return {'steps': steps, 'Tm': float(e['thermo2'].chemicals.tuple[j].Tm)}
+
 def run_impl(case):
+    if case['kind'] == 'sleh': return run_sleh(case)
     if case['kind'] == 'vlle': return run_vlle(case)
     if case['kind'] == 'vle': return run_vle(case)
     if case['kind'] == 'lle': return run_lle(case)
@@ -691,7 +754,19 @@ def coq_vlle(case, out):
         return f'(vlle_check_err {call})'
     return f'(vlle_check {call} {exp})'
 
+def coq_sleh(case, out):
+    e = env()
+    def hop(op):
+        if op[0] == 'T': return f'(HCallT {q(op[1])} {q(op[2])})'
+        if op[0] == 'given': return f'(HGiven {q(op[1])} {q(op[2])})'
+        if op[0] == 'set': return f'(HSet{"L" if op[1] == "l" else "S"} {cnat(op[2])} {q(op[3])})'
+        return f'(HScale {q(op[1])})'
+    init = f'(mksst {qlist(case["l"])} {qlist(case["s"])} {q(298.15)})'
+    exp = clist([f'(mksst {qlist(st["l"])} {qlist(st["s"])} {q(st["T"])}, {cbool(st["raised"])})' for st in out['steps']])
+    return (f'(hist_eqb (hrun {clist(e["lle2"], cbool)} {cnat(case["j"])} {q(out["Tm"])} ({init}, sobj0) {clist([hop(o) for o in case["ops"]])}) {exp})')
+
 def coq_case(case, out):
+    if case['kind'] == 'sleh': return coq_sleh(case, out)
     if case['kind'] == 'vlle': return coq_vlle(case, out)
     if case['kind'] == 'vle': return coq_vle(case, out)
     if case['kind'] == 'lle': return coq_lle(case, out)
@@ -707,6 +782,8 @@ def coq_show(case, out):
     return 'tt'
 
 def nontrivial(case, out):
+    if case['kind'] == 'sleh':
+        return sum(1 for op, st in zip(case['ops'], out['steps']) if op[0] in ('T', 'given') and not st['raised']) >= 2
     if case['kind'] == 'vlle':
         return (case['L'], case['g'], case['l']) != (out['final']['L'], out['final']['g'], out['final']['l'])
     if case['kind'] == 'vle':
@@ -717,6 +794,8 @@ def nontrivial(case, out):
     return out['before']['l'] != out['after']['l'] or out['before']['s'] != out['after']['s']
 
 def classify(case, out):
+    if case['kind'] == 'sleh':
+        return [f'sleh:{op[0]}:{"raised" if st["raised"] else "ok"}' for op, st in zip(case['ops'], out['steps'])]
     if case['kind'] == 'vlle':
         return [f'vlle:vle-calls={len(out["vsegs"])}:lle-calls={len(out["lsegs"])}' + (':raised' if out['raised'] else '')]
     if case['kind'] == 'vle':
@@ -749,6 +828,36 @@ def check_rows(before, after, names, tol=1e-9):
 def oracle(case):
     """Runs the REAL code with the REAL solvers (no stubs) and evaluates the property on the stream."""
     e = env()
+    if case['kind'] == 'sleh':
+        # the history on the real code, once with the real SLE._solve_x and once with the table one
+        for stub in (False, True):
+            tmo = e['tmo']
+            s = tmo.MultiStream(None, T=298.15, P=101325., phases='ls', thermo=e['thermo2'])
+            s.imol['l'] = np.array(case['l'], float); s.imol['s'] = np.array(case['s'], float)
+            j = case['j']; solute = e['IDS2'][j]
+            from thermosteam.equilibrium.sle import SLE
+            p = Patches(); cur = {}
+            if stub: p.set(SLE, '_solve_x', lambda self, T: cur['x'])
+            try:
+                for op in case['ops']:
+                    before = [fl(s.imol['l'].to_array()), fl(s.imol['s'].to_array())]
+                    try:
+                        if op[0] == 'T':
+                            cur['x'] = op[2]; s.sle(solute, T=op[1])
+                        elif op[0] == 'given':
+                            s.sle(solute, T=op[1], solubility=op[2])
+                        elif op[0] == 'set':
+                            s.imol[op[1]][op[2]] = op[3]; continue
+                        else:
+                            s.imol['l'] = np.array(before[0]) * op[1]; s.imol['s'] = np.array(before[1]) * op[1]; continue
+                    except Exception:
+                        continue
+                    after = [fl(s.imol['l'].to_array()), fl(s.imol['s'].to_array())]
+                    msg = check_rows(before, after, e['IDS2'])
+                    if msg: return f'sle history ({"table" if stub else "real"} _solve_x), call {op}: {msg}'
+            finally:
+                p.undo()
+        return None
     if case['kind'] == 'vlle':
         tmo = e['tmo']
         s = tmo.MultiStream(None, T=298.15, P=101325., phases='Lgl', thermo=e['thermo'])
